@@ -3,8 +3,12 @@
 
 #[path = "../../common/util.rs"]
 pub mod util;
+#[path = "../../common/env.rs"]
+pub mod env;
 #[cfg(kani)]
-pub mod c02_macro;
+pub mod c02_alloc;
+#[cfg(kani)]
+pub mod c03_unwind;
 #[cfg(kani)]
 pub mod c20_slot;
 #[cfg(kani)]
